@@ -703,6 +703,14 @@ class C08LevelLimit(Monitor):
                     self.cov("rounds_cut_with_2_parents")
                 self.nt((tuple(self.before), L, min(n, 6)))
 
+    def on_filter(self, f, before, after, tree):
+        if type(f).__name__ != "LevelLimit":
+            return
+        seq = [d.level for d, inds in before.items() if inds]
+        runs = [x for i_, x in enumerate(seq) if i_ == 0 or seq[i_ - 1] != x]
+        if len(runs) != len(set(runs)):
+            self.cov("level_limit_handed_candidates_whose_parents_of_one_level_are_not_adjacent")
+
     def on_sprout_end(self, tree, seeds):
         L = self._limit()
         if L is None or self.before is None:
